@@ -1,9 +1,10 @@
 #!/bin/sh
 # Regression over every seeded change (4 at a time) after one setup; one summary line per change.
+# ONLY=<regex> restricts the changes, SEEDS=0,1 the seeds.
 # Meant for `vp run --timeout 8h -- sh tools/run_seeded_all.sh` (results are not evidence).
 ./setup.sh > setup.log 2>&1 || { echo "setup failed"; tail -20 setup.log; exit 2; }
 mkdir -p seeded_logs
-ls seeded | xargs -P 4 -I{} sh -c 'python3 tools/run_seeded.py seeded/{} --base HEAD --seeds ${SEEDS:-0} > seeded_logs/{}.json 2>&1; python3 - {} <<PY
+ls seeded | grep -E "${ONLY:-.}" | xargs -P 4 -I{} sh -c 'python3 tools/run_seeded.py seeded/{} --base HEAD --seeds ${SEEDS:-0} > seeded_logs/{}.json 2>&1; python3 - {} <<PY
 import json,sys
 s=sys.argv[1]
 t=open("seeded_logs/%s.json"%s).read(); i=t.find("{")
